@@ -251,6 +251,86 @@ def delivery3(s1: int, f1: bool, p1: int, p2: int, k1: int) -> str:
     return _run(4, [False, f1, False], [0, s1, 0], [(p1, 1), (p2, 0)], [k1, 0])
 
 
+def send_once(fk: int, ns: int) -> str:
+    """
+    The real PushService.push_snapshot / _push_task (run through an inline task handler) against a recording service
+    stub whose send succeeds, or fails with a gRPC error / another Exception after the service has seen the request: every
+    accepted snapshot is handed to the service EXACTLY once - never twice, whatever the outcome - and a failure touches
+    no other snapshot.
+    PRE: 0 <= fk <= 3 and 1 <= ns <= 3
+    POST: _ == ""
+    """
+    world.begin_path()
+    import grpc
+    import deep.push.push_service as psm
+    from deep.push.push_service import PushService
+    from deepproto.proto.tracepoint.v1.tracepoint_pb2 import Snapshot
+    fk, ns = world.realize(fk), world.realize(ns)
+    seen = []
+
+    class RpcFailure(grpc.RpcError):
+        pass
+
+    class Stub:
+        def __init__(self, channel):
+            pass
+
+        def send(self, request, metadata=None):
+            seen.append(request.ID)
+            if fk == 1 and len(seen) == 1:
+                raise RpcFailure("deadline exceeded")          # the reply was lost: the service HAS the snapshot
+            if fk == 2 and len(seen) == 1:
+                raise RuntimeError("channel closed")
+            if fk == 3:
+                raise RpcFailure("unavailable")
+
+    class Grpc:
+        channel = None
+
+        def metadata(self):
+            return []
+
+    class Inline:
+        class F:
+            def add_done_callback(self, cb):
+                cb(self)
+
+            def exception(self):
+                return None
+
+        def submit_task(self, task, *args):
+            try:
+                task(*args)
+            except Exception:
+                pass                 # kept by the future in the real handler
+            return Inline.F()
+    import deep.push as dp
+    real_stub, real_conv = psm.SnapshotServiceStub, dp.convert_snapshot
+    psm.SnapshotServiceStub = Stub
+    dp.convert_snapshot = lambda snap: Snapshot(ID=snap.id.to_bytes(16, "big"))
+
+    class Snap:
+        def __init__(self, i):
+            self.id = i + 1
+    try:
+        ps = PushService(Grpc(), Inline())
+        for i in range(ns):
+            try:
+                ps.push_snapshot(Snap(i))
+            except Exception as e:
+                world.reached()
+                return "C09:send:push-raised-into-the-application:" + type(e).__name__
+    finally:
+        psm.SnapshotServiceStub, dp.convert_snapshot = real_stub, real_conv
+    world.reached()
+    want = [(i + 1).to_bytes(16, "big") for i in range(ns)]
+    if sorted(set(seen)) != want:
+        return "C09:send:snapshot-never-handed-to-the-service"
+    if len(seen) != len(set(seen)):
+        return "C09:send:snapshot-sent-more-than-once"
+    return ""
+
+
 def _mut_callback_keeps_pending():
     import deep.task as t
     src_holder = {}
@@ -316,6 +396,8 @@ def _mut_pending_key_from_size():
 MUTANTS = {"pending_key_from_size": _mut_pending_key_from_size, "callback_keeps_pending": _mut_callback_keeps_pending, "flush_reraises": _mut_flush_reraises, "flush_keeps_open": _mut_flush_keeps_open}
 
 CONDITIONS = [
+    dict(fn="send_once", cubes=["fk == %d" % k for k in range(4)], twins=["reach"],
+         bounds="real push_snapshot/_push_task (inline task handler, conversion replaced by an id-only message): 1-3 snapshots; send ok / first send fails with grpc.RpcError / with RuntimeError / every send fails"),
     dict(fn="delivery", cubes={"quick": ["si == %d and t1 == %d and f0 == %s and s0 == 0 and s1 == 0 and s2 == 0 and not f2 and k1 == 0 and k2 == 0" % (s, t, f)
                                          for s in (0, 1, 2, 3, 5) for t in range(3) for f in ("True", "False")],
                                "thorough": ["si == %d and t1 == %d and f0 == %s and f1 == %s and s0 == %d and s1 == 0 and s2 == 0 and not f2 and k1 == 0 and k2 == 0" % (s, t, f, g, sl)
